@@ -480,7 +480,26 @@ func (x *Exec) assumeTyped(v *Term, t types.Type) {
 	case *types.Pointer, *types.Map, *types.Chan, *types.Signature:
 		if v.Sort == "Int" {
 			x.addFact(tt.Ge(v, tt.IntLit(0)))
+			x.assumeObjKind(v, t)
 		}
+	}
+}
+
+// assumeObjKind: only validator objects can be descendants of validator objects.
+func (x *Exec) assumeObjKind(v *Term, t types.Type) {
+	if len(x.prog.Cons.ValidatorTypes) == 0 || v.hasBound {
+		return
+	}
+	p, ok := t.Underlying().(*types.Pointer)
+	if !ok {
+		return
+	}
+	tn := typeName(p.Elem())
+	isv := x.tt.UF("isval$", "Bool", v)
+	if x.isValidatorTypeName(tn) {
+		x.addFactRaw(x.tt.Or(x.tt.Eq(v, x.tt.IntLit(0)), isv))
+	} else if _, isStruct := p.Elem().Underlying().(*types.Struct); isStruct {
+		x.addFactRaw(x.tt.Not(isv))
 	}
 }
 
